@@ -493,6 +493,88 @@ fn pipeline_spec(ctx: &Ctx, w: i64) -> SeqSpec {
     }
 }
 
+// ---------------------------------------------------------------------------------------------- ilv
+/// The eviction loop while the sweeper releases weight behind the worker's back. Sound under every interleaving:
+///  * an accepted put leaves the total within the cache weight ("enough space resulted");
+///  * if the sweep had finished before the worker examined its first victim and the put still ended with "not
+///    enough space" although the space free at the end (nothing else frees or charges weight) holds the key, the
+///    loop did not look at the space that resulted;
+///  * the victims actually evicted are exactly the keys that left the store besides the swept ones.
+fn ilv_oracle() -> crate::harness::ilv::Oracle {
+    use crate::harness::ilv::{Finding, Run};
+    Arc::new(|run: &Run, out: &mut Vec<Finding>| {
+        // the subject is the put of key 4 (in the window, or as a probe after it)
+        let put = match run.calls.iter().find(|c| matches!(c.op, Op::Put { k: 4, .. })) {
+            Some(p) => p,
+            None => return,
+        };
+        let weight = match &put.op {
+            Op::Put { w: Some(w), .. } => *w,
+            _ => return,
+        };
+        let st = run.status_of(put.thread, put.idx);
+        let o = if put.thread == PHASE_POST { &run.obs_post } else { &run.obs_end };
+        let charged: i64 = o.weights.iter().map(|w| w.3).sum();
+        let victims: Vec<&crate::verif_rt::common::Event> = run.events.iter().filter(|e| e.kind == "admission_victim").collect();
+        let evictions: Vec<&&crate::verif_rt::common::Event> = victims.iter().filter(|e| e.data[6] <= e.data[2]).collect();
+        let sweeps: Vec<u64> = run.events.iter().filter(|e| e.kind == "sweep_done").map(|e| e.seq).collect();
+        match st {
+            Some(CommandStatus::Accepted) => {
+                if o.weight_used > o.max_weight || charged > o.max_weight {
+                    out.push(Finding::new("accept-iff-space", "admission:accepted-without-enough-space", format!("{} was accepted but the total weight ends at {} (charged keys: {}) > {}", put.short(), o.weight_used, charged, o.max_weight)));
+                }
+                if model_read(o, put.op.key().unwrap()).0 != put.value {
+                    out.push(Finding::new("accepted-put-not-stored", "admission:accepted-put-not-readable", format!("{} was accepted but the key does not read back", put.short())));
+                }
+            }
+            Some(CommandStatus::Rejected(RejectionReason::EnoughSpaceIsNotAvailableAndKeyFailedToEvictOthers)) => {
+                let free = o.max_weight - o.weight_used;
+                let swept_before_first_victim = victims.first().map_or(false, |v| sweeps.iter().any(|s| *s < v.seq));
+                if swept_before_first_victim && !evictions.is_empty() && free >= weight {
+                    out.push(Finding::new("accept-iff-space", "admission:enough-space-but-rejected", format!("{} ended with not-enough-space although the sweep had finished before the first victim was examined, {} victims were evicted and {} is free at the end", put.short(), evictions.len(), free)));
+                }
+            }
+            _ => {}
+        }
+        // every eviction round is justified: the space the loop believed in never exceeds what was really free
+        for v in &victims {
+            if v.data[3] >= v.data[1] {
+                out.push(Finding::new("evicted-more-than-needed", "admission:round-after-enough-space", format!("a victim (#{}) was examined although the loop already counted {} free for weight {}", v.data[4], v.data[3], v.data[1])));
+            }
+        }
+        for f in accounting_violations(o) {
+            out.push(Finding::new("accounting", "admission:accounting-broken", f));
+        }
+    })
+}
+
+fn ilv_programs() -> Vec<crate::harness::ilv::Program> {
+    use crate::harness::ilv::Program;
+    use crate::props::common::{adv, get, put, put_ttl};
+    let mut v = Vec::new();
+    // a (TTL, expired, accessed), b (cold), c (hot); the incoming key needs two victims' worth of space
+    let mk = |name: &str, w: i64, init: Vec<Op>, incoming: Op| {
+        let mut p = Program::new(name);
+        p.setup = Setup { weight: w, buffer: 1, counters: 256, ..Setup::default() };
+        p.init = init;
+        p.threads = vec![vec![incoming], vec![Op::Tick]];
+        p.world.iter_order_is_choice = true;
+        p
+    };
+    v.push(mk("evicting-put(d,4)||{tick} sweeping a (a,c accessed; b cold)/W=6", 6, vec![put_ttl(1, 2, 1000), put(2, 2), put(3, 2), get(1), get(3), get(3), adv(3000)], put(4, 4)));
+    v.push(mk("evicting-put(d,5)||{tick} sweeping a (nothing accessed)/W=6", 6, vec![put_ttl(1, 3, 1000), put(2, 1), put(3, 2), adv(3000)], put(4, 5)));
+    v.push(mk("evicting-put(d,3)||{tick} sweeping a and b/W=6", 6, vec![put_ttl(1, 2, 1000), put_ttl(2, 2, 1000), put(3, 2), adv(3000)], put(4, 3)));
+    {
+        // the same key released by the worker (delete) and by the sweeper; afterwards a colder put that does not fit
+        // beside the hot key b must be refused
+        let mut p = mk("delete(a)||{tick} sweeping a ; then put(d,5) beside hot b/W=6", 6, vec![put_ttl(1, 2, 1000), put(2, 2), get(2), get(2), adv(3000)], Op::Delete { k: 1 });
+        p.post = vec![put(4, 5)];
+        p.world.iter_order_is_choice = false;
+        v.push(p);
+    }
+    v
+}
+
 pub fn def(ctx: &Ctx) -> PropertyDef {
     let mut scenarios = vec![Scenario {
         name: "exh/admission-decision-table".into(),
@@ -513,10 +595,14 @@ pub fn def(ctx: &Ctx) -> PropertyDef {
         let name = pipeline_spec(ctx, w).name;
         scenarios.push(seq_scenario(move |c| pipeline_spec(c, w), &name));
     }
+    for p in ilv_programs() {
+        let nthreads = p.threads.len();
+        scenarios.push(crate::harness::ilv::program_scenario(p, ilv_oracle(), move |c| crate::harness::ilv::tier_cfg(c, nthreads)));
+    }
     PropertyDef {
         id: "C06",
-        technique: "exhaustive enumeration of the admission decision table on the real AdmissionPolicy (residents x weights x access-frequency profiles x incoming key), oracle evaluated per eviction round from the admission_victim events with read-back estimates; plus explicit-state BFS at CacheD level through reads -> buffers -> consumer -> sketch -> admission",
-        rule: "exh: every case of the enumerated table; distinct_nontrivial = distinct cases in which at least one eviction round ran; seq: canonical states first reached at depth >= 2",
+        technique: "exhaustive enumeration of the admission decision table on the real AdmissionPolicy (residents x weights x access-frequency profiles x incoming key), oracle evaluated per eviction round from the admission_victim events with read-back estimates; plus explicit-state BFS at CacheD level through reads -> buffers -> consumer -> sketch -> admission; plus stateless preemption-bounded model checking of the eviction loop racing the sweeper",
+        rule: "exh: every case of the enumerated table; distinct_nontrivial = distinct cases in which at least one eviction round ran; seq: canonical states first reached at depth >= 2; ilv: every schedule up to the preemption bound",
         assumptions: vec![
             "estimates are read back from the sketch and used as inputs, so bloom-filter false positives and counter collisions cannot cause a false alarm",
             "any member of a tie may be chosen as victim; which residents form the sample is taken from the event, only its size, distinctness and membership are checked",
